@@ -111,6 +111,10 @@ def derived_check(draw, phys, cells, allow_ignore_na_false=True):
             cs = {"kind": k, "args": {"max_value": draw(sarg)}}
         elif k in ("str_matches", "str_contains"):
             cs = {"kind": k, "args": {"pattern": draw(st.sampled_from(PATTERNS))}}
+            if draw(st.integers(0, 4)) == 0:  # a compiled pattern, with or without flags
+                cs["args"]["flags"] = draw(st.sampled_from([[], ["IGNORECASE"], ["IGNORECASE"], ["DOTALL"], ["MULTILINE"]]))
+                if "IGNORECASE" in cs["args"]["flags"]:
+                    cs["args"]["pattern"] = cs["args"]["pattern"].upper() if draw(st.booleans()) else cs["args"]["pattern"]
         elif k in ("str_startswith", "str_endswith"):
             cs = {"kind": k, "args": {"string": draw(st.sampled_from(["a", "b", "ab", "", "c"]))}}
         elif k == "str_length":
